@@ -264,25 +264,27 @@ Qed.
 (* SUB socket: subscribe / unsubscribe tell every registered peer, and a peer that joins later is
    told every subscription active at that time *)
 Theorem sub_subscribe_tells_every_peer : forall w t k c, w_type w = SUB -> NoDup (w_peers w) ->
+  existsb (bytes_eqb t) (w_subs w) = false ->
   In k (w_peers w) -> get_conn k (w_conns w) = Some c ->
   exists c', get_conn k (w_conns (snd (step w (OSub t)))) = Some c' /\
              c_wire c' = c_wire c ++ encode_frames [1 :: t].
 Proof.
-  intros w t k c _ Hnd Hin Hg. unfold step. cbv zeta. cbn [snd].
+  intros w t k c _ Hnd Hnew Hin Hg. unfold step. rewrite Hnew. cbv zeta. cbn [snd].
   change Gen.sub_op_sub with 1. unfold sub_msg.
   destruct (write_fold_inv [1 :: t] (w_peers w) Hnd
-              (with_subs w (if existsb (bytes_eqb t) (w_subs w) then w_subs w else w_subs w ++ [t]))
+              (with_subs w (w_subs w ++ [t]))
               k c Hg) as (c' & G & W).
   exists c'. split; [exact G|].
   rewrite W, (proj2 (memN_In k (w_peers w)) Hin). reflexivity.
 Qed.
 
 Theorem sub_unsubscribe_tells_every_peer : forall w t k c, w_type w = SUB -> NoDup (w_peers w) ->
+  existsb (bytes_eqb t) (w_subs w) = true ->
   In k (w_peers w) -> get_conn k (w_conns w) = Some c ->
   exists c', get_conn k (w_conns (snd (step w (OUnsub t)))) = Some c' /\
              c_wire c' = c_wire c ++ encode_frames [0 :: t].
 Proof.
-  intros w t k c _ Hnd Hin Hg. unfold step. cbv zeta. cbn [snd].
+  intros w t k c _ Hnd Hold Hin Hg. unfold step. rewrite Hold. cbn [negb]. cbv zeta. cbn [snd].
   change Gen.sub_op_unsub with 0. unfold sub_msg.
   destruct (write_fold_inv [0 :: t] (w_peers w) Hnd
               (with_subs w (filter (fun x => negb (bytes_eqb x t)) (w_subs w)))
@@ -291,25 +293,36 @@ Proof.
   rewrite W, (proj2 (memN_In k (w_peers w)) Hin). reflexivity.
 Qed.
 
+(** a repeated subscribe, or an unsubscribe of something not subscribed, changes nothing and tells nobody *)
+Theorem sub_repeat_is_silent : forall w t,
+  (existsb (bytes_eqb t) (w_subs w) = true -> step w (OSub t) = ([BSubOk true], w)) /\
+  (existsb (bytes_eqb t) (w_subs w) = false -> step w (OUnsub t) = ([BSubOk false], w)).
+Proof.
+  intros w t. split; intros H; unfold step; rewrite H; reflexivity.
+Qed.
+
 Theorem sub_set_semantics : forall w t,
   (forall x, In x (w_subs (snd (step w (OSub t)))) <-> x = t \/ In x (w_subs w)) /\
   (forall x, In x (w_subs (snd (step w (OUnsub t)))) <-> x <> t /\ In x (w_subs w)).
 Proof.
-  intros w t. split; intros x; unfold step; cbv zeta; cbn [snd]; rewrite write_fold_subs;
-    cbn [w_subs with_subs set_w].
-  - destruct (existsb (bytes_eqb t) (w_subs w)) eqn:E.
+  intros w t. split; intros x; unfold step.
+  - destruct (existsb (bytes_eqb t) (w_subs w)) eqn:E; cbv zeta; cbn [snd].
     + split; [intros H; right; exact H|].
       intros [->|H]; [|exact H].
       apply existsb_exists in E. destruct E as (y & Hy & Ey).
       apply bytes_eqb_eq in Ey. subst y. exact Hy.
-    + rewrite in_app_iff. cbn [In]. split.
+    + rewrite write_fold_subs; cbn [w_subs with_subs set_w]. rewrite in_app_iff. cbn [In]. split.
       * intros [H|[H|[]]]; [right; exact H|left; symmetry; exact H].
       * intros [H|H]; [right; left; symmetry; exact H|left; exact H].
-  - rewrite filter_In, negb_true_iff. split.
-    + intros [H1 H2]. split; [|exact H1].
-      destruct (bytes_eqb_spec x t); [discriminate|assumption].
-    + intros [H1 H2]. split; [exact H2|].
-      destruct (bytes_eqb_spec x t); [contradiction|reflexivity].
+  - destruct (existsb (bytes_eqb t) (w_subs w)) eqn:E; cbn [negb]; cbv zeta; cbn [snd].
+    + rewrite write_fold_subs; cbn [w_subs with_subs set_w]. rewrite filter_In, negb_true_iff. split.
+      * intros [H1 H2]. split; [|exact H1].
+        destruct (bytes_eqb_spec x t); [discriminate|assumption].
+      * intros [H1 H2]. split; [exact H2|].
+        destruct (bytes_eqb_spec x t); [contradiction|reflexivity].
+    + split; [|intros [_ H]; exact H]. intros H. split; [|exact H].
+      intros ->. assert (existsb (bytes_eqb t) (w_subs w) = true) as E2; [|congruence].
+      apply existsb_exists. exists t. split; [exact H|apply bytes_eqb_refl].
 Qed.
 
 Lemma attach_fold : forall c ts acc cn, get_conn c (w_conns acc) = Some cn ->
